@@ -25,10 +25,14 @@ class CenteredFieldType(FieldType):
         return chunks, ALIGN_CENTER
 
 
-def mk_field_types(centered=None):
+def mk_field_types(centered=None, bounded=None):
+    """bounded = (field, lo, hi): the width bounds are set on the field type, not in the column description"""
     ft = {'st': PPEnumFieldType(dict(ENUM_DEF))}
     if centered:
         ft[centered] = CenteredFieldType()
+    if bounded:
+        field, lo, hi = bounded
+        ft[field] = CenteredFieldType(lo, hi) if field == centered else FieldType(lo, hi)
     return ft
 
 
